@@ -66,6 +66,9 @@ func runC24(tr *vh.Trace, rnd *rand.Rand, nscen, nact int) {
 			// keep the scenario (and the column kinds the generator relies on) in step with
 			// what the database now holds
 			d.adopt(after2tables(sc, after))
+			if tooBig(sc) {
+				break // numbers grown by repeated updates: stay far away from 32-bit
+			}
 			if rolled {
 				// everything the transaction did is gone: start the model again from what is there
 				tr.Reset()
@@ -272,4 +275,17 @@ func (d *DB) adopt(m map[string][][]Val) {
 			}
 		}
 	}
+}
+
+func tooBig(sc *Scenario) bool {
+	for _, t := range sc.Tables {
+		for _, r := range t.Rows {
+			for _, v := range r {
+				if v.T == 2 && (v.N > 100000 || v.N < -100000) {
+					return true
+				}
+			}
+		}
+	}
+	return false
 }
